@@ -343,3 +343,62 @@ Theorem C02_skipnext_never_reports_a_cut_section_as_eof :
     brp_skip o st <> Err EEof /\ brp_next hok o st <> Err EEof.
 Proof. exact skip_next_cut_section_not_eof. Qed.
 Print Assumptions C02_skipnext_never_reports_a_cut_section_as_eof.
+
+(* ==== round 3: failed length prefixes under every option set; SkipNext and mixed walks ================= *)
+From GoCarProofs Require Import BlockReaderPosFacts ScanTruncWalk.
+
+(* For ALL byte strings and options: a Next call (v2 BlockReader / internal carv1 reader: [next_block];
+   root-module reader: [next_block_root]) reports io.EOF only at a clean end -- nothing is left, or, under
+   ZeroLengthSectionAsEOF, the next length prefix is the single byte 0; for the root module: nothing is
+   left, or the next section has length zero (its legacy null-padding tolerance).  In particular a length
+   prefix that fails to decode -- cut inside a multi-byte varint, overflowing, not minimally encoded -- is
+   never a clean end, with or without ZeroLengthSectionAsEOF. *)
+Theorem C02_next_reports_eof_only_at_a_clean_end :
+  forall hok,
+    (forall o s, next_block hok o s = Err EEof ->
+       s = [] \/ (o_zeof o = true /\ exists rest n, read_uv s = VOk 0 rest n)) /\
+    (forall s, next_block_root hok s = Err EEof -> s = [] \/ exists rest, ld_read_root s = Ok ([], rest)).
+Proof. exact next_eof_clean_both. Qed.
+Print Assumptions C02_next_reports_eof_only_at_a_clean_end.
+
+(* For ALL states of the position-tracking BlockReader (any input, options, source kind; for SkipNext's
+   seek path: readerSize, once learnt, is the size of the source -- an invariant of NewBlockReader and of
+   every call, TotalWalk.brp_open_state / brp_skip_progress): Next returns a block and SkipNext returns
+   metadata only if the whole section the length prefix declares is in front of the reader. *)
+Theorem C02_next_and_skipnext_return_only_complete_sections :
+  forall hok o st,
+    (forall b st', brp_next hok o st = Ok (b, st') ->
+       exists l rest n, ld_read_size (o_zeof o) (o_maxs o) (vis st) = Ok (l, rest, n) /\ l <= blen rest) /\
+    (forall m st',
+       (p_lim st = None -> p_rsize st = None \/ p_rsize st = Some (blen (p_all st))) ->
+       brp_skip o st = Ok (m, st') ->
+       exists l rest n, ld_read_size (o_zeof o) (o_maxs o) (vis st) = Ok (l, rest, n) /\ l <= blen rest).
+Proof. exact calls_return_whole_sections. Qed.
+Print Assumptions C02_next_and_skipnext_return_only_complete_sections.
+
+(* (b) for every walk: NewBlockReader over a constructed CARv1 cut at any k that is not a section boundary,
+   on a seekable or a plain source ([seek]), under any options, driven by ANY choice string [w] of Next
+   (true) and SkipNext (false): a failed open (cut in the header), or the walk returns only sections
+   that lie completely in front of the cut, in the archive's order (at most the j complete ones), never
+   ends with io.EOF, and if the choices outlast the returned steps it ends with an error. *)
+Theorem C02_mixed_walk_truncation_is_never_a_clean_eof :
+  forall hok hdrdec o seek roots bs k w,
+    hdr_good hdrdec roots -> blen (enc_header (Some roots) 1) <= o_maxh o ->
+    blen (enc_header (Some roots) 1) < two63 ->
+    Forall (block_ok (o_maxs o)) bs -> Forall (fun b => cid_stream_ok (fst b)) bs ->
+    (o_trusted o = false -> Forall (hash_good hok) bs) ->
+    k < blen (enc_payload roots bs) ->
+    ~ (exists j, (j <= length bs)%nat /\
+                 k = blen (ld (enc_header (Some roots) 1)) + blen (enc_sections (firstn j bs))) ->
+    (k < blen (ld (enc_header (Some roots) 1)) /\
+       exists e, brp_run hok hdrdec o seek (take k (enc_payload roots bs)) w = Err e)
+    \/ (blen (ld (enc_header (Some roots) 1)) <= k /\
+        exists j st0 steps e fin, (j < length bs)%nat /\
+          blen (ld (enc_header (Some roots) 1)) + blen (enc_sections (firstn j bs)) < k /\
+          brp_run hok hdrdec o seek (take k (enc_payload roots bs)) w = Ok (1, roots, st0, (steps, (e, fin))) /\
+          (length steps <= j)%nat /\
+          map step_cid steps = firstn (length steps) (map fst bs) /\
+          e <> Some EEof /\
+          ((length steps < length w)%nat -> exists e', e' <> EEof /\ e = Some e')).
+Proof. exact brp_run_trunc_v1. Qed.
+Print Assumptions C02_mixed_walk_truncation_is_never_a_clean_eof.
